@@ -1,6 +1,9 @@
 (* C02 -- parseInterface(s), the uniqueness loop of Parse, and the whole parser. *)
 From Coq Require Import Lia ZifyBool Btauto.
-From CR Require Import Model.Config Model.ConfigSpec Proofs.Config Proofs.ConfigPlugins.
+From CR Require Import Model.Config.
+From CR Require Import Model.ConfigSpec.
+From CR Require Import Proofs.Config.
+From CR Require Import Proofs.ConfigPlugins.
 Local Open Scope Z_scope.
 
 Lemma parse_min_interval_spec t mx : 4 * sec <= mx <= 1800 * sec ->
